@@ -186,7 +186,7 @@ def _case(seed: int) -> Dict[str, Any]:
     from hta.common import trace_file as tfm
 
     gz = bool(seed % 2)
-    evs = cpgen.gen_cp_events(seed, n_steps=3, n_streams=1 + seed % 3)
+    evs = cpgen.gen_cp_events(seed, n_steps=3, n_streams=1 + seed % 3, annotations=(seed % 3 == 1), python_frames=(seed % 3 == 1))  # every third trace recorded with Python stack frames
     for e in evs:  # Kineto writes args on every complete event; the overlay relies on it
         if e.get("ph") == "X":
             e.setdefault("args", {})["External id"] = 1
@@ -249,6 +249,14 @@ def _case(seed: int) -> Dict[str, Any]:
                         out = doc["traceEvents"]
                         n += 1
                         crit = {int(g.node_list[int(x)].ev_idx) for x in g.critical_path_nodes}  # the events of the path's nodes (not the set the library keeps)
+                        # an event id is a position in the file: the graph's event i is the file's entry i (same name), so the marker lands on the event meant
+                        stab_ = ta.t.symbol_table.get_sym_table()
+                        gname = {int(i): stab_[int(nm)] for i, nm in zip(g.trace_df["index"], g.trace_df["name"]) if 0 <= int(nm) < len(stab_)}
+                        off_ = [i for i in sorted(crit) if i >= len(src_events) or gname.get(i) != src_events[i].get("name")]
+                        if off_:
+                            fails.append({"what": "overlay.critical_event_ids_are_file_positions", "input": inp, "observed": {"event": off_[0], "graph_name": gname.get(off_[0])},
+                                          "expected": src_events[off_[0]].get("name") if off_[0] < len(src_events) else "an entry of the file"})
+                            break
                         flows = [e for e in out if e.get("ph") in ("s", "f")]
                         body = [e for e in out if e.get("ph") not in ("s", "f")]
                         sel = {"only_show_critical_events": only_crit, "show_all_edges": all_edges}
